@@ -29,14 +29,18 @@ pub fn paths(prefix: &str, f: &Field, out: &mut Vec<(String, Field)>) {
     }
 }
 
-fn type_case<T: Zoo>(ctx: &mut Ctx, rng: &mut Rng, o: &TOpts, label: &str) {
-    let ft = guarded(|| Vec::<Field>::from_type::<T>(o.to_options()).map_err(|e| e.to_string()));
+fn type_case<T: Zoo>(ctx: &mut Ctx, rng: &mut Rng, o: &TOpts, label: &str) { type_case_budget::<T>(ctx, rng, o, label, 100) }
+
+/// `budget` = from_type_budget (100 is the default): small budgets exercise the multi-pass exploration
+/// of enums (one variant per pass) and its failure when the budget runs out
+fn type_case_budget<T: Zoo>(ctx: &mut Ctx, rng: &mut Rng, o: &TOpts, label: &str, budget: usize) {
+    let ft = guarded(|| Vec::<Field>::from_type::<T>(o.to_options().from_type_budget(budget)).map_err(|e| e.to_string()));
     let cover = T::covering(rng);
     let fs = guarded(|| Vec::<Field>::from_samples(&cover, o.to_options()).map_err(|e| e.to_string()));
     let samples: Vec<Val> = cover.iter().map(|v| zoo::to_val(v)).collect();
     ctx.count(&format!("{}:{}:from_type_{}:from_samples_{}", label, T::NAME, ft.class(), fs.class()));
-    let coq = format!("{{| c_opts := {}; c_ty := {}; c_from_type := {}; c_samples := {}; c_from_samples := {} |}}", o.coq(), T::ty(), res_coq(&ft), cf::list(&samples, arrgen::val_coq), res_coq(&fs));
-    let idx = ctx.add_case(coq, json!({"type": T::NAME, "options": format!("{:?}", o), "from_type": match &ft { Out::Ok(f) => format!("Ok({:?})", f), Out::Err(e) => format!("Err({})", e), Out::Panic(p) => format!("Panic({})", p) }, "from_samples": match &fs { Out::Ok(f) => format!("Ok({:?})", f), Out::Err(e) => format!("Err({})", e), Out::Panic(p) => format!("Panic({})", p) }}), true);
+    let coq = format!("{{| c_opts := {}; c_budget := {}; c_ty := {}; c_from_type := {}; c_samples := {}; c_from_samples := {} |}}", o.coq(), budget, T::ty(), res_coq(&ft), cf::list(&samples, arrgen::val_coq), res_coq(&fs));
+    let idx = ctx.add_case(coq, json!({"type": T::NAME, "options": format!("{:?}", o), "from_type_budget": budget, "from_type": match &ft { Out::Ok(f) => format!("Ok({:?})", f), Out::Err(e) => format!("Err({})", e), Out::Panic(p) => format!("Panic({})", p) }, "from_samples": match &fs { Out::Ok(f) => format!("Ok({:?})", f), Out::Err(e) => format!("Err({})", e), Out::Panic(p) => format!("Panic({})", p) }}), true);
     if let (Out::Ok(a), Out::Ok(b)) = (&ft, &fs) {
         let ca: Vec<String> = a.iter().map(canon).collect(); let cb: Vec<String> = b.iter().map(canon).collect();
         // maps traced from samples as structs are documented to differ from the type-traced map
@@ -74,7 +78,7 @@ fn overwrite_cases<T: Zoo>(ctx: &mut Ctx, rng: &mut Rng) {
         }
         let new_field = Field { name: orig.name.clone(), data_type: DataType::LargeUtf8, nullable: true, metadata: [("replaced".to_string(), "yes".to_string())].into_iter().collect() };
         let found = replace(&mut expect, "", path, &new_field);
-        let idx = ctx.add_case(format!("{{| c_opts := {}; c_ty := TyStruct []; c_from_type := Err; c_samples := []; c_from_samples := Err |}}", TOpts::default().coq()), json!({"type": T::NAME, "overwrite_at": path, "result": match &r { Out::Ok(f) => format!("Ok({:?})", f), Out::Err(e) => format!("Err({})", e), Out::Panic(p) => format!("Panic({})", p) }}), true);
+        let idx = ctx.add_case(format!("{{| c_opts := {}; c_budget := 100; c_ty := TyStruct []; c_from_type := Err; c_samples := []; c_from_samples := Err |}}", TOpts::default().coq()), json!({"type": T::NAME, "overwrite_at": path, "result": match &r { Out::Ok(f) => format!("Ok({:?})", f), Out::Err(e) => format!("Err({})", e), Out::Panic(p) => format!("Panic({})", p) }}), true);
         match &r {
             Out::Ok(got) => if found && *got != expect { ctx.fail(idx, "overwrite_not_exact", format!("{}: overwrite at {:?} gives {:?}, expected {:?}", T::NAME, path, got, expect)); },
             Out::Err(e) => ctx.fail(idx, "overwrite_refused", format!("{}: overwrite at the existing path {:?} is refused: {}", T::NAME, path, e)),
@@ -94,6 +98,14 @@ fn all_for<T: Zoo>(ctx: &mut Ctx, exhaustive: bool) {
     let mut rng = ctx.rng.fork();
     if exhaustive { for b in 0..512u32 { type_case::<T>(ctx, &mut rng, &TOpts::from_bits(b), "all_options"); } }
     else { let n = if ctx.thorough { 200 } else { 40 }; for _ in 0..n { let o = TOpts::random(&mut rng); type_case::<T>(ctx, &mut rng, &o, "random_options"); } }
+    // the exploration budget: every budget from 0 up to the number of passes the type needs (and one more), under
+    // option sets that let the type be traced
+    for budget in 0..=8usize {
+        for bits in [0b000000001u32, 0b100000001, 0b000001101] {
+            let mut o = TOpts::from_bits(bits); o.map_as_struct = false;
+            type_case_budget::<T>(ctx, &mut rng, &o, "budget", budget);
+        }
+    }
     overwrite_cases::<T>(ctx, &mut rng);
 }
 
